@@ -155,13 +155,16 @@ func GenRouteFile(r *R, idx int, o RouteOpts) *ir.Request {
 				if o.PathRepeatsBase && svc.BasePath != "" && r.P(1, 4) {
 					b := "/" + strings.Trim(svc.BasePath, "/")
 					if b != "/" {
+						// the rest keeps its own leading slash: a variable must stay a whole segment
+						// (net/http patterns and every generator's extraction are per segment)
+						rest := "/" + strings.TrimPrefix(path, "/")
 						switch r.Intn(3) {
 						case 0:
-							path = b + path // whole segment(s) repeated
+							path = b + rest // whole segment(s) repeated
 						case 1:
-							path = b + "-keys" + path // string prefix only
+							path = b + "-keys" + rest // string prefix only
 						default:
-							path = b + "s" + path
+							path = b + "s" + rest
 						}
 					}
 				}
